@@ -12,7 +12,7 @@ from .mir import parse_dump, find_matching, split_top
 from .rtypes import strip_generics, parse_type, canon_callee
 
 REPO = os.environ.get('VERIF_REPO', '/repo')
-BUILD = os.environ.get('VERIF_BUILD', '/verif/.build')
+BUILD = os.environ.get('VERIF_BUILD', os.path.join(os.path.dirname(os.path.dirname(os.path.abspath(__file__))), '.build'))
 
 
 def dump_crate(crate, features=None, no_default=False, force=True):
@@ -23,6 +23,18 @@ def dump_crate(crate, features=None, no_default=False, force=True):
     os.makedirs(tdir, exist_ok=True)
     out = os.path.join(BUILD, 'dumps')
     os.makedirs(out, exist_ok=True)
+    # two checks may run at once: removing the fingerprint under a compiling cargo breaks that build, so serialise the dump
+    import fcntl
+    lock = open(os.path.join(BUILD, 'mir.lock'), 'w')
+    fcntl.flock(lock, fcntl.LOCK_EX)
+    try:
+        return _dump_locked(crate, features, no_default, force, tdir, out)
+    finally:
+        fcntl.flock(lock, fcntl.LOCK_UN)
+        lock.close()
+
+
+def _dump_locked(crate, features, no_default, force, tdir, out):
     if force:
         for fp in glob.glob(os.path.join(tdir, 'debug', '.fingerprint', crate.replace('-', '_') + '-*')) + \
                 glob.glob(os.path.join(tdir, 'debug', '.fingerprint', crate + '-*')):
